@@ -20,7 +20,7 @@ Ltac reuse_flow_leaf Etx :=
   use_reuse Hc Hwf Hpl Hsn Hcl Hnow Hlog Hkey Hle Herr Hrb Hser; fl_cbn_all;
   unfold flow_okp, flow_ok; fl_cbn; rewrite ?Hc, ?Hsn, ?Hcl, ?Hnow, ?Hlog; cbn [app];
   mon_unfold; mon_cbn; rewrite ?existsb_app, ?forallb_app, ?tx_run_app; mon_cbn;
-  rewrite ?Hwf; try (rewrite (eqb_nonempty _ (Herr _ eq_refl))); mon_cbn;
+  rewrite ?Hwf; try (destruct (Herr _ eq_refl) as [-> | ->]); mon_cbn;
   try (rewrite (Hpl Etx)); rewrite ?Etx in *; mon_cbn;
   serial_cases Hser; mon_cbn;
   rewrite ?andb_false_r, ?orb_false_r, ?andb_true_r; mon_cbn;
@@ -31,7 +31,7 @@ Ltac reuse_flow_leaf Etx :=
 Lemma frefresh_ok e cfg s auth tok sm :
   flow_okp e s (ORefresh auth tok sm) (frefresh e cfg (finit s) auth tok).
 Proof.
-  flow_unfold. unfold fpanic, begin_tx, abort, rollback_tx, wr, planned, ffail. cbv zeta. fl_cbn. destruct (fe_tx e) eqn:Etx; destruct (key_of s tok) eqn:Ek.
+  flow_unfold. fl_cbn. destruct (fe_tx e) eqn:Etx; destruct (key_of s tok) eqn:Ek.
   all: flow_split.
   all: try (lazymatch goal with
                  | H : tx_block _ _ _ _ _ _ _ _ = _ |- _ => fail
@@ -102,12 +102,12 @@ Proof.
 Qed.
 
 Lemma frevoke_R e cfg s auth tok h :
-  Rinv s (fst (frevoke e cfg (finit s) auth tok h)) /\ o_minted (snd (frevoke e cfg (finit s) auth tok h)) = [].
+  Rinv s (fst (frevoke e cfg (finit s) auth tok h)) /\ (o_minted (snd (frevoke e cfg (finit s) auth tok h)) = [] /\ panicked (snd (frevoke e cfg (finit s) auth tok h)) = false).
 Proof.
   unfold frevoke, ffail. cbv zeta. cbn [f_s finit].
   pose proof (R_finit s) as H0.
-  destruct auth as [c|]; [|split; [exact H0|reflexivity]].
-  destruct (clients s c); [|split; [exact H0|reflexivity]].
+  destruct auth as [c|]; [|split; [exact H0|now split]].
+  destruct (clients s c); [|split; [exact H0|now split]].
   assert (Hproceed : forall x2 r, Rinv s x2 ->
     let res := (if negb (Nat.eqb (r_client r) c) then (x2, err_obs "unauthorized_client")
         else
@@ -121,8 +121,8 @@ Proof.
                           | (None, y) => (ROk, with_store y (revoke_access (st (f_s y)) (r_id r)))
                           end in
           if benign c3 && benign c4 then (x4, ok_obs [] 0%Z []) else (x4, err_obs "temporarily_unavailable")) in
-    Rinv s (fst res) /\ o_minted (snd res) = []).
-  { intros x2 r H2. cbv zeta. destruct (negb (Nat.eqb (r_client r) c)); [split; [exact H2|reflexivity]|].
+    Rinv s (fst res) /\ (o_minted (snd res) = [] /\ panicked (snd res) = false)).
+  { intros x2 r H2. cbv zeta. destruct (negb (Nat.eqb (r_client r) c)); [split; [exact H2|now split]|].
     destruct (revoke_refresh (st (f_s x2)) (r_id r)) as [st3 oe] eqn:Er.
     pose proof (R_wr e s x2 MRevokeRT (serr_class oe) eq_refl H2) as H3.
     assert (H3' : Rinv s (snd (match wr e x2 MRevokeRT (serr_class oe) with
@@ -141,7 +141,7 @@ Proof.
       apply R_with_store; [assumption|]. apply sle_revoke_access. }
     destruct (match wr e x3 MRevokeAT ROk with
               | (Some f, y) => (RInj f, y) | (None, y) => (ROk, with_store y (revoke_access (st (f_s y)) (r_id r))) end) as [c4 x4].
-    cbn [snd] in H4'. destruct (benign c3 && benign c4); split; try assumption; reflexivity. }
+    cbn [snd] in H4'. destruct (benign c3 && benign c4); split; try assumption; now split. }
   set (first := match h with HAccess => lookup_at | _ => lookup_rt end).
   set (second := match h with HAccess => lookup_rt | _ => lookup_at end).
   assert (Hf : forall x key, Rinv s x -> Rinv s (fst (first e x key))) by (intros; subst first; destruct h; auto using lookup_rt_R, lookup_at_R).
@@ -152,13 +152,13 @@ Proof.
   - pose proof (Hs x1 (key_of s tok) H1) as H2.
     destruct (second e x1 (key_of s tok)) as [x2 [r|c2]]; cbn [fst] in H2.
     + apply Hproceed; assumption.
-    + destruct (benign c1 && benign c2); split; try assumption; reflexivity.
+    + destruct (benign c1 && benign c2); split; try assumption; now split.
 Qed.
 
 Lemma frevoke_ok e cfg s auth tok h :
   flow_okp e s (ORevoke auth tok h) (frevoke e cfg (finit s) auth tok h).
 Proof.
-  destruct (frevoke_R e cfg s auth tok h) as [[H1 H2 H3 H4 H5 H6] Hm].
+  destruct (frevoke_R e cfg s auth tok h) as [[H1 H2 H3 H4 H5 H6] [Hm Hp]].
   unfold flow_okp, flow_ok.
   set (x' := fst (frevoke e cfg (finit s) auth tok h)) in *.
   set (ob := snd (frevoke e cfg (finit s) auth tok h)) in *.
@@ -166,6 +166,6 @@ Proof.
     by (unfold rolled_back; rewrite (notx_has _ MBegin is_ok eq_refl H1); now rewrite andb_false_r).
   repeat split; auto; try congruence;
     try (match goal with Hk : _ < _ |- _ => destruct (H6 _ Hk) as [? [? [? [? ?]]]]; assumption end).
-  - right. pose proof (notx_any _ H1) as Ha. unfold mon_c, tx_wf, call in *. rewrite (notx_wf _ H1), Ha. cbn. now rewrite andb_false_r.
+  - pose proof (notx_any _ H1) as Ha. unfold mon_c, tx_wf, call in *. rewrite (notx_wf _ H1), Ha. cbn. now rewrite andb_false_r.
   - unfold mon_b, no_tokens. rewrite Hm. cbn [negb is_revoke]. rewrite andb_false_r. left; reflexivity.
 Qed.
